@@ -15,7 +15,7 @@ ID = "C16"
 LEVEL = "exploration"
 SHARDS = {"quick": 8, "thorough": 16}
 LEVEL_TEXT = (
-    "Generated-input search over successful plans (with and without registry) whose calls return fresh weak-referenceable "
+    "Generated-input search over plans (with and without registry; successful, or with consumers that fail while max_errors lets the run continue) whose calls return fresh weak-referenceable "
     "tokens that hold no reference to their inputs; at every call start (after gc.collect()) every token whose producer and "
     "all consumers have already been reported completed to a recording observer, and which is not part of the output, must "
     "be dead; after run returned and its result was dropped every token must be dead. Runs use 1-4 workers, both "
